@@ -132,6 +132,7 @@ type Result struct {
 	Witness    string           `json:"witness,omitempty"`
 	WallMs     int64            `json:"wall_ms"`
 	Extra      []Result         `json:"extra,omitempty"` // additional verdicts produced by the same execution
+	Recycle    bool             `json:"recycle,omitempty"` // the worker process is poisoned (stuck goroutine): restart it
 }
 
 func (r *Result) Count(k string, n int64) {
